@@ -6,6 +6,7 @@ import WK.Model.C27
   value, what the REAL encoder/decoder did; the judge evaluates the property on
   those flags:
     rt=eq                      decode(encode v) == v
+    ext=<n>:<acc>              encodings followed by extra bytes that were accepted (self-delimiting codecs: must be 0)
     trunc=<n>:<acc>:<noncanon> strict prefixes accepted / accepted-but-not-the-canonical-encoding-of-what-they-decode-to
     flip=<n>:<acc>:<unstable>  mutants accepted / accepted values that do not survive encode→decode
     alloc=ok                   no single decode allocated more than 512·len(input)+256 KiB
@@ -24,18 +25,19 @@ def kv (key : String) (toks : List String) : Option String :=
 def judgeRT (codec : String) (selfDelim canon : Bool) (impl : String) : String :=
   let toks := fields impl
   if toks == ["enc=err"] then "ok" else
-  match kv "rt" toks, kv "trunc" toks, kv "flip" toks, kv "alloc" toks with
-  | some rt, some tr, some fl, some al =>
+  match kv "rt" toks, kv "trunc" toks, kv "flip" toks, kv "alloc" toks, kv "ext" toks with
+  | some rt, some tr, some fl, some al, some ex =>
     if rt != "eq" then s!"viol:roundtrip-{rt}:{codec}" else
-    match (splitColon tr).map String.toNat?, (splitColon fl).map String.toNat? with
-    | [some _, some acc, some nonc], [some _, some _, some unst] =>
+    match (splitColon tr).map String.toNat?, (splitColon fl).map String.toNat?, (splitColon ex).map String.toNat? with
+    | [some _, some acc, some nonc], [some _, some _, some unst], [some _, some extAcc] =>
       if selfDelim && acc != 0 then s!"viol:truncation-accepted:{codec}"
+      else if selfDelim && extAcc != 0 then s!"viol:trailing-garbage-accepted:{codec}"
       else if canon && nonc != 0 then s!"viol:truncation-noncanonical:{codec}"
       else if canon && unst != 0 then s!"viol:garbage-decodes-to-unstable-value:{codec}"
       else if al != "ok" then s!"viol:alloc-unbounded:{codec}"
       else "ok"
-    | _, _ => "viol:unparseable-output"
-  | _, _, _, _ => "viol:unparseable-output"
+    | _, _, _ => "viol:unparseable-output"
+  | _, _, _, _, _ => "viol:unparseable-output"
 
 /-- verdict for a `gb` (arbitrary bytes) op -/
 def judgeGB (codec : String) (canon : Bool) (impl : String) : String :=
